@@ -7,7 +7,10 @@
          the one generator that produced both vectors of that correlation; refine passes its own window start as
          correlationStart (the primary passes 0) and cuts the reference window symmetric about the peak
   C16.3  bin index -> base pairs: coordinate * resolution + (ceil(resolution / 2) - 1 + start)  (bin centre)
-Declined: exactness of vectorisePositions and blur for all (start, end, resolution, radius) - arithmetic on run-time values.
+  C16.4  bins are half-open and every label is examined (shape of the scanning loop of vectorisePositions): the loop runs over
+         the whole label list (or from bisect_left(labels, start)); a label is skipped iff position < window start (strict);
+         the window advances while position >= window start + resolution (inclusive)
+Declined: exactness of vectorisePositions and blur as a whole for all (start, end, resolution, radius) - arithmetic on run-time values.
 """
 from __future__ import annotations
 
@@ -62,6 +65,93 @@ def _largest_k_indices(t, heights, k):
     return None
 
 
+def scanning_loop(ck):
+    import ast
+    from ..norm import norm_in
+    ctx = ck.ctx
+    cands = [f for f in ctx.p.nontest_functions() if f.name == "vectorisePositions" and f.cls is None]
+    if len(cands) != 1:
+        raise AnalysisError(f"anchor function vectorisePositions: {len(cands)} definitions found")
+    fn = cands[0]
+    ck.clause("C16.4", "half-open bins; every label examined by the scanning loop of vectorisePositions")
+    params = [pp.name for pp in fn.call_params()]
+    if len(params) < 3:
+        raise AnalysisError(f"{fn.where}: vectorisePositions(positions, resolution, start, ...) expected")
+    labels, resolution, start = params[0], params[1], params[2]
+    loops = [n for n in ast.walk(fn.node) if isinstance(n, ast.For) and any(isinstance(x, ast.Yield) for x in ast.walk(n))]
+    if len(loops) != 1 or not isinstance(loops[0].target, ast.Name):
+        raise AnalysisError(f"{fn.where}: the scanning loop of vectorisePositions was not found")
+    loop = loops[0]
+    pos = loop.target.id
+    w = where(fn, loop)
+    # --- iterable
+    it = loop.iter
+    text = ast.unparse(it)
+    verdict = None
+    if isinstance(it, ast.Name) and it.id == labels:
+        verdict = True
+    elif isinstance(it, ast.Call) and isinstance(it.func, ast.Name) and it.func.id in ("sorted", "iter", "list", "tuple") \
+            and len(it.args) == 1 and isinstance(it.args[0], ast.Name) and it.args[0].id == labels:
+        verdict = True
+    elif isinstance(it, ast.Subscript) and isinstance(it.value, ast.Name) and it.value.id == labels and isinstance(it.slice, ast.Slice):
+        sl = it.slice
+        lo = sl.lower
+        if sl.upper is None and sl.step is None and isinstance(lo, ast.Call):
+            f = lo.func.attr if isinstance(lo.func, ast.Attribute) else lo.func.id if isinstance(lo.func, ast.Name) else None
+            arg_ok = len(lo.args) >= 2 and isinstance(lo.args[0], ast.Name) and lo.args[0].id == labels \
+                and isinstance(lo.args[1], ast.Name) and lo.args[1].id == start
+            if f == "bisect_left" and arg_ok:
+                verdict = True
+            elif f in ("bisect_right", "bisect") and arg_ok:
+                verdict = ("a label lying exactly on the window start is skipped (bisect_right / bisect is the first index "
+                           "*after* equal elements): bit 0 stays 0 although a label lies in [start, start + resolution)")
+        if verdict is None and (sl.lower is not None or sl.upper is not None or sl.step is not None) \
+                and all(x is None or isinstance(x, ast.Constant) or (isinstance(x, ast.UnaryOp) and isinstance(x.operand, ast.Constant))
+                        for x in (sl.lower, sl.upper, sl.step)):
+            verdict = "a constant slice of the label list is scanned: labels outside it never set a bit"
+    if verdict is True:
+        ck.ok("C16.4", "vectorisePositions:labels-scanned", w, "the scanning loop runs over every label", text)
+    elif verdict is None:
+        raise AnalysisError(f"{w}: iterable of the scanning loop not recognised: {text}")
+    else:
+        ck.violation("C16.4", "vectorisePositions:labels-scanned", w, verdict, found=text, required=f"for ... in {labels}")
+    # --- names of the window bounds: ws is initialised from `start`; we = ws + resolution (may be inlined)
+    ws = we = None
+    for n in fn.node.body:
+        if isinstance(n, ast.Assign) and len(n.targets) == 1 and isinstance(n.targets[0], ast.Name):
+            if isinstance(n.value, ast.Name) and n.value.id == start:
+                ws = n.targets[0].id
+    if ws is None:
+        ws = start if any(isinstance(n, ast.AugAssign) and isinstance(n.target, ast.Name) and n.target.id == start
+                          for n in ast.walk(fn.node)) else None
+    if ws is None:
+        raise AnalysisError(f"{fn.where}: the variable holding the current window start was not found")
+    for n in fn.node.body:
+        if isinstance(n, ast.Assign) and len(n.targets) == 1 and isinstance(n.targets[0], ast.Name) and n.targets[0].id != ws:
+            t = norm_in(ctx, fn, n.value)
+            if t == T.p_add(V(ws), V(resolution)):
+                we = n.targets[0].id
+    env = {we: T.p_add(V(ws), V(resolution))} if we else {}
+    skip = adv = None
+    for n in ast.walk(loop):
+        if isinstance(n, ast.If) and len(n.body) == 1 and isinstance(n.body[0], ast.Continue):
+            skip = n
+        if isinstance(n, ast.While):
+            adv = n
+    if skip is None or adv is None:
+        raise AnalysisError(f"{w}: skip test / window-advance loop not found in the scanning loop")
+    st = norm_in(ctx, fn, skip.test, True, env=env)
+    want_skip = T.mk_lt(V(pos), V(ws))
+    ck.judge(st == want_skip, "C16.4", "vectorisePositions:skip-test", where(fn, skip),
+             "a label is skipped iff it lies strictly before the window start (a label exactly on it belongs to the bin)",
+             found=T.show(st)[:120], required=T.show(want_skip))
+    at = norm_in(ctx, fn, adv.test, True, env=env)
+    want_adv = T.mk_ge(V(pos), T.p_add(V(ws), V(resolution)))
+    ck.judge(at == want_adv, "C16.4", "vectorisePositions:advance-test", where(fn, adv),
+             "the window advances while the label is at or beyond window start + resolution (bins are half-open)",
+             found=T.show(at)[:120], required=T.show(want_adv))
+
+
 def run(ck):
     ctx = ck.ctx
     p = ctx.p
@@ -69,6 +159,7 @@ def run(ck):
     ck.clause("C16.2", "resolution / window start handed to peak creation belong to the correlation they describe")
     ck.clause("C16.3", "bin centre conversion formula")
     seeds(ck, "C16.1")
+    scanning_loop(ck)
     # ---- createPeaks
     cp = p.find_method("CorrelationResult", "createPeaks")
     heights = T.mk_idx(V("peakProperties"), C("peak_heights"))
